@@ -460,7 +460,7 @@ def field_templates(paths, nmax):
     return out
 
 
-VALUE_TEMPLATES = ["{{a}}\n", "{{a}} ", " {{a}}", "{{ }}", "{{\ta.b\n}}", "{{a }}x", "{{  b.a.b  }}", "{{a}}}", "{{{a}}", "{{a b}}",
+VALUE_TEMPLATES = ["{{\xa0a\xa0}}", "{{\x1c}}", "{{\u2003a.b\u3000}}", "{{a}}\x85", "{{a}}\n", "{{a}} ", " {{a}}", "{{ }}", "{{\ta.b\n}}", "{{a }}x", "{{  b.a.b  }}", "{{a}}}", "{{{a}}", "{{a b}}",
                    "{{a}}\n\n", "{{}}"]
 UC_UPDATES = [
     {"v": 7}, {"v": None}, {"v": {"d": [["n", 1]]}}, {"v": {"d": [["b", {"d": [["z", "q"]]}]]}}, {"v": {"d": []}},
@@ -472,7 +472,7 @@ UC_UPDATES = [
     {"pieces": [["field", ["a", "b"]], ["lit", "_"], ["field", ["c"]]]},
     {"s": "{{a"}, {"s": "{{}}"}, {"s": "{a}"}, {"s": "{{a}}{{b}}"}, {"s": "{{a}}x"}, {"s": "{{ a.b }}"},
 ]
-UC_DEFAULTS = [MISSING, 0, {"scale": "lin", "n": {"m": 1}}]
+UC_DEFAULTS = [MISSING, 0, None, {"scale": "lin", "n": {"m": 1}}]
 UC_SUBCONTEXTS = ["o", "a.b", "b.a.c", "a"]
 
 
@@ -482,7 +482,24 @@ def uc_update_str(u):
     return u.get("s")
 
 
+_CTX = None
+_STATS = {"outcomes": 0, "unmodelled": 0, "by_op": {}}
+
+
+def _count(op, unmodelled):
+    """how many compared outcomes the model declined to predict ('unmodelled'); written into the evidence notes"""
+    _STATS["outcomes"] += 1
+    if unmodelled:
+        _STATS["unmodelled"] += 1
+        _STATS["by_op"][op] = _STATS["by_op"].get(op, 0) + 1
+    if _CTX is not None:
+        _CTX.notes = [f"model declined (unmodelled) on {_STATS['unmodelled']} of {_STATS['outcomes']} compared outcomes "
+                      f"(by kind of case: {dict(sorted(_STATS['by_op'].items()))}); those are judged by the oracle only"]
+
+
 def gen_cases(ctx):
+    global _CTX
+    _CTX = ctx
     rng = ctx.rng
     thorough = ctx.tier == "thorough"
     ctx.exhaustive = False
@@ -492,8 +509,8 @@ def gen_cases(ctx):
         yield ({"op": "addr", "d": enc(d), "alpha": alpha, "maxlen": 4})
     deep = all_dicts(["a", "b"], [1, "b"], 3)
     if thorough:
-        for d in deep:
-            yield ({"op": "addr", "d": enc(d), "alpha": alpha, "maxlen": 4})
+        for i, d in enumerate(deep):
+            yield ({"op": "addr", "d": enc(d), "alpha": alpha, "maxlen": 4 if i % 4 == 0 else 3})
     else:
         for d in rng.sample(deep, 400):
             yield ({"op": "addr", "d": enc(d), "alpha": alpha, "maxlen": 4})
@@ -502,6 +519,15 @@ def gen_cases(ctx):
         yield ({"op": "addr", "d": enc(rand_ctx(rng, keys, rng.randint(1, 3), RICH_LEAVES if rng.random() < 0.5 else RICH_LEAVES[:10])),
                 "alpha": rng.sample(["a", "b", "c", "1", "None", "True", "False", "0", "[1, 2]", "2.5", "['b']", "[]"], 3),
                 "maxlen": 3})
+    # keys and strings with blanks at their ends, characters that JSON escapes, non-ASCII text (review F2)
+    odd = [" a", "a ", "a"]
+    for d in all_dicts([" a", "a "], [1, " a"], 2):
+        yield ({"op": "addr", "d": enc(d), "alpha": odd, "maxlen": 3})
+    for keys, alpha in (([" a ", "é", 'q"'], [" a ", "é", 'q"']), (["\\", "a b", "\n"], ["\\", "a b", "\n"]),
+                        (["\xa0a", "a", "x y"], ["\xa0a", "a", "x y"])):
+        for _ in range(40 if thorough else 10):
+            yield ({"op": "addr", "d": enc(rand_ctx(rng, keys, 3, leaves=(1, " a", "a ", "x y", 'q"', "é", None, [" a"], "\\"))),
+                    "alpha": alpha, "maxlen": 3})
     # malformed / special key arguments
     base = enc({"a": {"b": 1, "c": {"a": 2}}, "b": 5})
     bad_keys = [{"o": 0}, {"l": ["a", 1]}, {"l": [None]}, {"l": []}, {"l": ["a", "b"]}, {"l": ["a", ""]}, {"l": [""]},
@@ -509,7 +535,9 @@ def gen_cases(ctx):
                 {"k": enc({"a": {"b": {"x": 1, "y": 2}}})}, {"k": enc({"a": None})}, {"k": enc({"a": 0})},
                 {"k": enc({"a": ""})}, {"k": enc({"a": False})}, {"k": enc({"a": True})}, {"k": enc({"a": 5})},
                 {"k": enc({"a": {"b": 1}})}, {"k": enc({"a": {"c": "a"}})}, {"k": enc({"a": {"c": {}}})},
-                {"s": ""}, {"s": "."}, {"s": "a..b"}, {"s": ".a."}, {"s": "a.b."}, {"s": "a.c.a"}]
+                {"s": ""}, {"s": "."}, {"s": "a..b"}, {"s": ".a."}, {"s": "a.b."}, {"s": "a.c.a"},
+                {"k": enc({"a": ["x"]})}, {"k": enc({"a": {"b": [1]}})}, {"k": enc({"a": {"c": Obj("c")}})}, {"k": enc({"a": []})},
+                {"k": enc({"zz": ["x"]})}, {"s": " a.b"}, {"s": "a .b"}, {"s": " a. b "}]
     for k in bad_keys:
         for d in (base, 5, None, "a", enc({})):
             for dflt in (MISSING, None, enc({"x": 1})):
@@ -532,6 +560,13 @@ def gen_cases(ctx):
     for s in ("a.b.c d", "output.changed", "x", "a b", "None.1"):
         yield ({"op": "s2d", "s": s})
         yield ({"op": "s2d", "s": s, "value": True})
+    for n in range(1, 4):
+        for parts in itertools.product([" a", "a ", "b", "é", " "], repeat=n):
+            for v in (MISSING, 7):
+                c = {"op": "s2d", "s": ".".join(parts)}
+                if v is not MISSING:
+                    c["value"] = v
+                yield (c)
     for s in (5, None, {"L": ["a", "b"]}, {"d": [["a", 1]]}, True, {"f": "1.5"}):
         yield ({"op": "s2d", "s": s})
         yield ({"op": "s2d", "s": s, "value": 1})
@@ -588,6 +623,18 @@ def gen_cases(ctx):
                                         {"d": [["a", {"f": "1.0"}]]}, {"d": [["a", {"f": "inf"}]]}, {"d": [["a", {"f": "-inf"}]]},
                                         {"d": [["a", {"f": "2.5"}]]}, {"d": [["a", "2.5"]]}, {"d": [["a", {"o": "x"}]]},
                                         {"d": [["a", {"L": [1, {"o": None}]}]]}, {"L": [1, 2]}, {"L": []}, 1, "1", None]})
+    # strings that could forge structure or lose information in a sloppy encoder (review F2/F3)
+    yield ({"op": "tostr", "vs": [enc(x) for x in (
+        {"a": "x y"}, {"a": "xy"}, {"a b": 1}, {"ab": 1}, {"a": 'x","b":"y'}, {"a": "x", "b": "y"}, {"a": 'x\\","b":"y'},
+        {"a": "x\\", "b": "y"}, {"a": '"'}, {"a": "\\"}, {"a": '\\"'}, {"a": "\\\\"}, {'a"': 1}, {"a\\": 1}, {"a": "é"},
+        {"a": "\\u00e9"}, {"a": "e"}, {"é": 1}, {"a": "\n"}, {"a": "\\n"}, {"a": "n"}, {"a": " "}, {"a": ""}, {" a": 1}, {"a ": 1},
+        {"a": 1}, {"a": " 1"}, {"a": "1 "}, {"a": "\t"}, {"a": "\x7f"}, {"a": "\u2028"}, {"a": "😀"}, {"a": ","}, {"a": ":"},
+        {"a": "}"}, {"a": "{"}, {"a": ["x y"]}, {"a": ["x", "y"]}, {"a": ["x,y"]}, {"a": '","'}, {"a,": 1}, {"a": {"b c": 1}},
+        {"a": {"bc": 1}}, {"a": "true"}, {"a": True}, {"a": "null"}, {"a": None}, {"a": "1"})]})
+    for _ in range(300 if thorough else 40):
+        v = rand_ctx(rng, ["a", " a", "a b", 'q"', "\\", "é"], 3, leaves=(1, " ", "x y", "xy", 'q"', "\\", "é", "\n", None, ["x y"], {}, "a"))
+        vs = [v, scramble(v, "rev"), scramble(v, "rot")] + mutants(v)[:25]
+        yield ({"op": "tostr", "vs": [enc(x) for x in vs]})
     for _ in range(300 if thorough else 40):
         v = rand_ctx(rng, ["a", "b", "c", "B"], 3, leaves=(1, True, "1", None, [1, 2], [], [{"b": 1, "a": 2}, 1], 2.5, 1.0, {}, "a"))
         vs = [v, scramble(v, "rev"), scramble(v, "rot")] + mutants(v)[:25]
@@ -708,6 +755,36 @@ def gen_cases(ctx):
         yield ({"op": "dc", "key": {"s": s}, "items": items})
     for o in (5, None, {"d": [["a", {"d": [["b", 1]]}]]}, True, {"f": "1.5"}):
         yield ({"op": "dc", "key": {"o": o}, "items": items[:5]})
+    # a list/tuple key with a member that is not a string, at every position (/verif/notes/C08_defect_3)
+    bad = [5, None, {"L": ["b"]}, {"d": [["b", 1]]}, True, {"f": "1.5"}, {"L": []}]
+    for b in bad:
+        for members in ([b], ["a", b], [b, "a"], ["a", b, "b"], ["a", "b", b]):
+            for form in ("l", "t"):
+                yield ({"op": "dc", "key": {form: members}, "items": items[:5] + [enc({"a": {}}), enc({"a": {"b": {}}})]})
+    # keys with blanks at the ends, longer paths
+    blank_items = [None, enc({" a": {"a ": 1, "b": {" a": 2}}, "a": 5}), enc({"a ": {" a": {"a": {" a": {"a ": 7, "b": 8}}}}})]
+    for p in all_paths([" a", "a ", "a"], 2) + [["a ", " a", "a", " a", "a "], ["a ", " a", "a", " a"], [" a", "b", " a"]]:
+        for f in ({"s": ".".join(p)}, {"l": list(p)}, {"t": list(p)}):
+            yield ({"op": "dc", "key": f, "items": blank_items})
+    deep_items = [None, enc({"a": {"b": {"c": {"a": {"b": 1, "c": 2}, "b": 3}}}, "b": 0}), enc({"a": {"b": 5}}), enc({})]
+    for p in (["a", "b", "c", "a"], ["a", "b", "c", "a", "b"], ["a", "b", "c", "b"], ["a", "b", "c", "a", "c"]):
+        for f in ({"s": ".".join(p)}, {"l": list(p)}):
+            yield ({"op": "dc", "key": f, "items": deep_items})
+        for upd in ({"v": 7}, {"v": {"d": [["n", 1]]}}, {"pieces": [["field", ["b"]]]}):
+            for value, rec in ((False, True), (False, False), (True, True)):
+                if value and "v" in upd:
+                    continue
+                yield ({"op": "uc", "args": {"subcontext": ".".join(p), "update": upd, "value": value, "skip": False, "raise": False,
+                                             "recursively": rec}, "items": deep_items})
+    for sub in (" a", "a ", " a.a ", "a . b", "é.q\"", "a b.c"):
+        for upd in ({"v": 7}, {"pieces": [["field", ["a"]]]}, {"s": "{{ a }}"}):
+            for value in (False, True):
+                if value and "v" in upd:
+                    continue
+                yield ({"op": "uc", "args": {"subcontext": sub, "update": upd, "value": value, "skip": False, "raise": False,
+                                             "recursively": True}, "items": blank_items + [enc({"a": 1, " a": 2})]})
+        yield ({"op": "fuw", "key": sub, "value": 5, "d": blank_items[1]})
+        yield ({"op": "setctx", "key": sub, "value": "x y", "ctxs": blank_items[1:]})
     # ---- Context -----------------------------------------------------------------------------------
     for i in range(0, len(items), 4):
         yield ({"op": "context", "items": items[i:i + 4], "names": ["a", "b", "zz", "_a", "_private", "__x__", ""]})
@@ -1050,9 +1127,9 @@ def _dc_key(case):
         return _key_arg(k["o"]), None
     if "s" in k:
         return k["s"], (k["s"].split(".") if k["s"] != "" else [])
-    if "l" in k:
-        return list(k["l"]), list(k["l"])
-    return tuple(k["t"]), list(k["t"])
+    members = [dec(x) for x in (k["l"] if "l" in k else k["t"])]
+    path = members if all(isinstance(x, str) for x in members) else None      # None: a malformed key
+    return (members if "l" in k else tuple(members)), path
 
 
 def _run_dc(case):
@@ -1139,6 +1216,7 @@ def _spec_ctx_requests(case):
         if "pieces" in u:
             r.append({"op": "spec", "what": "template", "pieces": u["pieces"],
                       "ctxs": [w if w is not None else {"d": []} for w in case["items"]]})
+            r.append({"op": "jinja", "t": template_of(u["pieces"])})
         return r
     if op == "fuw" and isinstance(case["key"], str) and isinstance(case["d"], dict) and "d" in case["d"]:
         v = case["value"]
@@ -1235,8 +1313,22 @@ def _main_requests(case):
     raise ValueError(op)
 
 
+def _field_eq(x, y):
+    """two fields of a compact addr line: equal texts, or equal JSON values (the two sides escape strings differently)"""
+    if x == y:
+        return True
+    for pre in ("r:", ""):
+        if x.startswith(pre) and y.startswith(pre):
+            try:
+                return json.loads(x[len(pre):]) == json.loads(y[len(pre):])
+            except ValueError:
+                pass
+    return False
+
+
 def _cmp_out(what, impl, model):
     """impl outcome {"r":W}|{"e":..} against the model's; None when they agree or the model declines"""
+    _count(what.split(" ")[0].split(".")[0], model.get("e") == "unmodelled")
     if model.get("e") == "unmodelled":
         return None
     if "e" in impl or "e" in model:
@@ -1292,7 +1384,20 @@ def _compare_spec(case, res, replies):
         if replies[0]["n"] != n_active:
             return f"Lean nActive = {replies[0]['n']}, Python {n_active}"
         if len(replies) > 1:
-            return template(replies[1], a["update"]["pieces"], [w if w is not None else {"d": []} for w in case["items"]])
+            msg = template(replies[1], a["update"]["pieces"], [w if w is not None else {"d": []} for w in case["items"]])
+            if msg:
+                return msg
+            # the model's jinja2 parser against the pieces the template was built from (adjacent literals merged)
+            want = []
+            for k, x in a["update"]["pieces"]:
+                if k == "lit" and x == "":
+                    continue
+                if k == "lit" and want and want[-1][0] == "lit":
+                    want[-1] = ["lit", want[-1][1] + x]
+                else:
+                    want.append([k, x])
+            if replies[2].get("r") != want and replies[2].get("e") != "foreign":
+                return f"Lean jinjaParse({template_of(a['update']['pieces'])!r}) = {replies[2]}, pieces were {want}"
         return None
     if op == "fuw":
         v = _template_arg(case["value"])
@@ -1350,8 +1455,14 @@ def _compare_main(case, res, replies):
             return f"addr: {len(lines)} model lines for {len(res['paths'])} paths"
         for p, a, b in zip(_paths_of(case), res["paths"], lines):
             if a != b:
-                return (f"path {p}: impl {a} vs model {b} (fields: per notation s,l,e[,v] the outcome without/with "
-                        f"default, contains, reference item)")
+                fa, fb = a.split("|"), b.split("|")
+                declined = [i for i, x in enumerate(fb) if x == "?"]       # contains through a list whose repr is not modelled
+                _count("addr", bool(declined))
+                if len(fa) != len(fb) or any(not _field_eq(x, y) for i, (x, y) in enumerate(zip(fa, fb)) if i not in declined):
+                    return (f"path {p}: impl {a} vs model {b} (fields: per notation s,l,e[,v] the outcome without/with "
+                            f"default, contains, reference item)")
+            else:
+                _count("addr", False)
         return None
     if op == "getx":
         return _cmp_out("get_recursively", res, replies[0]["r"][0])
@@ -1434,6 +1545,7 @@ def _compare_main(case, res, replies):
         return None
     if op in ("uc", "dc"):
         m = replies[0]
+        _count(op, m.get("init") == "unmodelled")
         if m.get("init") == "unmodelled":
             return None
         if res["init"] != m.get("init", "ok"):
@@ -1546,6 +1658,10 @@ def _oracle_getx(case, res):
         path = _ref_dict_keys(dec(k["k"]))
         if path == "LenaValueError":
             return None if res.get("e") == "LenaValueError" else f"{what}: more than one key at a level, expected LenaValueError, got {res}"
+        if any(isinstance(x, (list, dict, Obj)) for x in path):
+            # the innermost value becomes a key; a list is not hashable: builtin TypeError when it is reached.  Judged outside
+            # the malformed-argument sentence (get_recursively is not named there), see /verif/notes/C08_defect_3.md
+            return None if res.get("e") in (None, "LenaKeyError", "Other:TypeError") else f"{what}: unexpected exception {res}"
         return _expect_get(d, path, dflt, res, what)
     s = k["s"]
     path = s.split(".") if s else []
@@ -1961,9 +2077,17 @@ def _oracle_dc(case, res):
     key, path = _dc_key(case)
     what = f"DeleteContext({key!r})"
     if path is None:
-        # "a malformed argument by LenaTypeError/LenaValueError" (/verif/notes/C08_defect_1)
-        return None if res["init"] in ("LenaTypeError", "LenaValueError") else \
-            f"{what}: the key is neither a string nor a list/tuple, expected LenaTypeError, got {res['init']}"
+        # "a malformed argument by LenaTypeError/LenaValueError, never by another exception" (/verif/notes/C08_defect_1, _3)
+        if res["init"] in ("LenaTypeError", "LenaValueError"):
+            return None
+        if res["init"] != "ok":
+            return f"{what}: a malformed key, expected LenaTypeError, got {res['init']} at construction"
+        for w, c in zip(case["items"], res["calls"]):
+            if c.get("e") not in ("LenaTypeError", "LenaValueError"):
+                return (f"{what}: a key that is neither a string nor a list/tuple of strings was accepted at construction and "
+                        f"the call on {('a value with context %r' % (dec(w),)) if w is not None else 'a value without context'} "
+                        f"gave {c.get('e', 'no exception')} (expected LenaTypeError/LenaValueError)")
+        return None
     if res["init"] != "ok":
         return f"{what} raised {res['init']} at construction"
     for w, c in zip(case["items"], res["calls"]):
@@ -2072,7 +2196,9 @@ def nontrivial(case, res):
     if op == "s2d":
         return True
     if op == "format":
-        return res["init"] != "ok" or any("r" in c and c["r"] for c in res["calls"])
+        if res["init"] != "ok":
+            return "raw" not in case or "{{" in case["raw"]      # a rejected string without '{{' says little
+        return any("r" in c and c["r"] for c in res["calls"])
     if op == "tostr":
         return len(case["vs"]) > 1
     if op == "setctx":
